@@ -367,10 +367,10 @@ def _converters(ctx: Ctx):
     for c in new_calls:
         cons = f"generate_avps_from_defs:Avp.new@{_branch_kind(gen.node, c, loopvar)}"
         ctx.inst(cons, rule="C03-R9")
-        args = [ast.unparse(a) for a in c.args]
-        kws = {k.arg: ast.unparse(k.value) for k in c.keywords}
-        code = args[0] if args else kws.get("avp_code")
-        vend = args[1] if len(args) > 1 else kws.get("vendor_id")
+        kws = {k: ast.unparse(v) for k, v in A.argmap(
+            c, ["avp_code", "vendor_id", "value", "is_mandatory", "is_private"]).items()}
+        code = kws.get("avp_code")
+        vend = kws.get("vendor_id")
         if code != f"{loopvar}.avp_code" or vend != f"{loopvar}.vendor_id":
             ctx.fail(cons, gen.loc(c),
                      f"Avp.new is not called with the definition's own code and vendor "
